@@ -198,6 +198,10 @@ func (cb CanonicalBlock) CheckValid() (errs error) {
 		errs = multierror.Append(errs, bcfErr)
 	}
 
+	if _, crcErr := emptyCRC(cb.CRCType); crcErr != nil {
+		errs = multierror.Append(errs, fmt.Errorf("CanonicalBlock: %v", crcErr))
+	}
+
 	if extErr := cb.Value.CheckValid(); extErr != nil {
 		errs = multierror.Append(errs, extErr)
 	}
